@@ -427,6 +427,41 @@ pub fn run(a: &Args) {
 			detail["key_id"].as_str().map(|k| k.len()),
 		);
 		rep.distinct(&(kname.clone(), ok, via_rpc, after.len() > before.len(), sub));
+		// Some received payments then go through "confirmed, reorganised away, found reverted by a scan": the
+		// records are put into the state that leaves (entry TxReverted, output Reverted). A later second delivery
+		// of that slate is still a second delivery.
+		if let CallKind::HonestReceive { .. } = kind {
+			if ok && rng.chance(1, 3) {
+				if let Some((s1, _)) = honest_slates.last() {
+					let id = s1.id;
+					let wal = &w.wallets[0];
+					let r = (|| -> Result<(), libwallet::Error> {
+						let txs = wal.all_txs()?;
+						let outs = wal.all_outputs()?;
+						with_backend!(wal, b, {
+							let mut batch = b.batch(wal.m())?;
+							for t in txs.iter().filter(|t| t.tx_slate_id == Some(id) && t.tx_type == grin_wallet_libwallet::TxLogEntryType::TxReceived) {
+								let mut t2 = t.clone();
+								t2.tx_type = grin_wallet_libwallet::TxLogEntryType::TxReverted;
+								t2.confirmed = false;
+								let parent = t2.parent_key_id.clone();
+								for o in outs.iter().filter(|o| o.tx_log_entry == Some(t.id) && o.root_key_id == t.parent_key_id) {
+									let mut o2 = o.clone();
+									o2.status = grin_wallet_libwallet::OutputStatus::Reverted;
+									batch.save(o2)?;
+								}
+								batch.save_tx_log_entry(t2, &parent)?;
+							}
+							batch.commit()?;
+							Ok(())
+						})
+					})();
+					if r.is_ok() {
+						rep.count("received-payment-put-into-reverted-state");
+					}
+				}
+			}
+		}
 		if rep.samples.len() < 5 && viols.is_empty() && ci % 37 == 5 {
 			rep.sample(json!({"call": kname, "via_rpc": via_rpc, "outcome": if ok {"ok"} else {"refused"}, "records_before": before.len(), "records_after": after.len()}));
 		}
